@@ -27,9 +27,18 @@ let eval case impl =
        loops separately *)
     let model =
       if mode = 'M' then impl else begin
-        let ((out, oc), _) = if mode = 'R' then M.read_all b0 sizes [] else M.bufread_all b0 sizes [] in
+        (* Read loop as in Model.read_all, except that a zero-sized read (an empty caller buffer) is not an end report *)
+        let rec rloop b szs acc = match szs with
+          | [] -> (acc, "MORE")
+          | k :: rest -> (match M.body_read k b with
+              | M.RErr (_, _) -> (acc, "ERR")
+              | M.ROk ([], b') -> if k = M.N0 then rloop b' rest acc else (acc, "EOF")
+              | M.ROk (o, b') -> rloop b' rest (acc @ o)) in
+        if mode = 'R' then (let (out, st) = rloop b0 sizes [] in hex_of_bytes out ^ " " ^ st)
+        else begin
+        let ((out, oc), _) = M.bufread_all b0 sizes [] in
         let st = match oc with M.AtEof -> "EOF" | M.Failed _ -> "ERR" | M.More -> "MORE" in
-        hex_of_bytes out ^ " " ^ st end in
+        hex_of_bytes out ^ " " ^ st end end in
     (* spec: what the encoding means, independently of the reader model *)
     let total = leftover @ List.concat segl in
     let expected =
@@ -44,7 +53,7 @@ let eval case impl =
         (match e with
          | M.Valid (p, _) ->
            (* exactly the payload then end-of-body; MORE only when the read sizes ran out (then a prefix) *)
-           (ist = "EOF" && iout = p) || (ist = "MORE" && is_prefix_of iout p && List.length sizes <= List.length p)
+           (ist = "EOF" && iout = p) || (ist = "MORE" && is_prefix_of iout p && List.length (List.filter (fun k -> k <> M.N0) sizes) <= List.length p)
          | M.Invalid _ -> ist <> "EOF" && ist <> "PANIC"       (* never a short or altered body reported as complete *)
          | M.Unspecified -> ist <> "PANIC")
       | Some _, _ -> false in
